@@ -63,7 +63,15 @@ def cells(lo=0.5, hi=500.0, gmin=0.02):
     exact = st.builds(lambda x, y, z, a1, a2, a3, eq: ([x, x, x] if eq == 2 else [x, x, z] if eq == 1 else [x, y, z]) + [a1, a2, a3],
                       a, a, a, sp, sp, sp, st.integers(0, 2)).filter(lambda c: O.gram_det(c) >= gmin)
     ties = st.builds(lambda c, eq: ([c[0]] * 3 if eq else [c[0], c[0], c[2]]) + c[3:], general, st.booleans())
-    return st.one_of(general, general, oblique, oblique, boundary, fam, near, exact, ties)
+    # the angle patterns of the symmetric families with edges that do NOT follow the family (a != b with gamma = 120,
+    # three equal angles with unequal edges, ...): perfectly valid cells on which a shortcut written for the family fails
+    pseudo = st.one_of(
+        st.builds(lambda x, y, z: [x, y, z, 90.0, 90.0, 120.0], a, a, a),
+        st.builds(lambda x, y, z: [x, y, z, 90.0, 90.0, 60.0], a, a, a),
+        st.builds(lambda x, y, z, al: [x, y, z, al, al, al], a, a, a, fl(25.0, 115.0)),
+        st.builds(lambda x, y, z: [x, y, z, 90.0, 120.0, 90.0], a, a, a),
+        st.builds(lambda x, y, z: [x, y, z, 120.0, 90.0, 90.0], a, a, a))
+    return st.one_of(general, general, oblique, oblique, boundary, fam, near, exact, ties, pseudo)
 
 
 def perturbed(cell, rel):
